@@ -194,6 +194,8 @@ func (p *Program) indexFuncs(base *Baseline) {
 				}
 			}
 		}
+		kids := map[string]*ssa.Function{}
+		var order []string
 		for _, an := range fn.AnonFuncs {
 			role := "func"
 			if lit, ok := an.Syntax().(*ast.FuncLit); ok {
@@ -201,7 +203,20 @@ func (p *Program) indexFuncs(base *Baseline) {
 					role = r
 				}
 			}
-			add(an, name+"$"+role)
+			kn := name + "$" + role
+			for k := 2; kids[kn] != nil; k++ {
+				kn = fmt.Sprintf("%s$%s#%d", name, role, k)
+			}
+			kids[kn] = an
+			order = append(order, kn)
+		}
+		ren := p.closureAliases(base, name, kids)
+		for _, kn := range order {
+			target := kn
+			if w, ok := ren[kn]; ok {
+				target = w
+			}
+			add(kids[kn], target)
 		}
 	}
 	var members []string
